@@ -222,7 +222,7 @@ func (w *world) applyGuarded(o Op) Obs {
 	select {
 	case r := <-done:
 		return r
-	case <-time.After(30 * time.Second):
+	case <-time.After(90 * time.Second):
 		return Obs{Timeout: true}
 	}
 }
